@@ -262,6 +262,7 @@ fn dump_crate<'tcx>(tcx: TyCtxt<'tcx>, name: &str) -> J {
 
     // ---- MIR bodies
     let mut fns: Vec<(String, J)> = Vec::new();
+    let mut seen_paths: std::collections::HashMap<String, usize> = std::collections::HashMap::new();
     let mut keys: Vec<LocalDefId> = tcx.mir_keys(()).iter().copied().collect();
     keys.sort_by_key(|k| tcx.def_path_str(k.to_def_id()));
     for did in keys {
@@ -286,6 +287,12 @@ fn dump_crate<'tcx>(tcx: TyCtxt<'tcx>, name: &str) -> J {
         };
         let mut o = fn_header(tcx, def_id, kind);
         dump_body(tcx, def_id, body, &mut o);
+        // items declared in sibling anonymous scopes can print identically: keep keys unique
+        let path = {
+            let n = seen_paths.entry(path.clone()).or_insert(0usize);
+            *n += 1;
+            if *n > 1 { format!("{}{{dup#{}}}", path, *n - 1) } else { path }
+        };
         fns.push((path.clone(), J::Obj(o)));
         // promoteds
         if !is_ctfe {
